@@ -190,6 +190,14 @@ fn base_plan(prop: &str, tier: &str, run_seed: u64) -> Plan {
     } else {
         gen::gen_program(&mut prng, &gc)
     };
+    // crowd scenarios: more simultaneous readers in one tree bin than ordinary programs have threads
+    let crowd = matches!(prop, "C01" | "C05" | "C11") && !scripted && (crng.chance(1, 40) || std::env::var("VERIF_CROWD").is_ok());
+    let (program, crowd_script) = if crowd {
+        let (p, s) = gen::gen_crowd(&mut prng);
+        (p, Some(s))
+    } else {
+        (program, None)
+    };
     let mut srng = rng.fork(2);
     let (stall_pct, spurious) = match prop {
         "C01" => (15, false),
@@ -198,7 +206,11 @@ fn base_plan(prop: &str, tier: &str, run_seed: u64) -> Plan {
         _ => (10, false),
     };
     let mut setup = gen::gen_setup(&mut srng, run_seed, &program, stall_pct, spurious);
-    if scripted && srng.chance(1, 2) {
+    if let Some(cs) = crowd_script {
+        setup.strat = cs;
+        setup.faults.stall_at.clear();
+        setup.budget = setup.budget.max(40_000);
+    } else if scripted && srng.chance(1, 2) {
         setup.strat = gen::shrinking_tree_script(&mut srng, program.threads.len());
     } else if matches!(prop, "C03" | "C04") && program.threads.len() >= 2 && srng.chance(1, 4) {
         setup.strat = gen::retire_race_script(&mut srng, program.threads.len());
@@ -456,6 +468,24 @@ pub fn judge(prop: &str, p: &Program, r: &RunResult, opts: &ExecOpts, js: &mut J
         return out;
     }
     out.extend(oracle::basic(r, opts.panic_at.is_some()));
+    if p.threads.len() > crate::sched::MAXT_CLASSIC {
+        // crowd scenario: how many readers were inside the tree bin's read section when the first
+        // writer announced itself
+        use flurry::verif::Ev;
+        let mut inside = 0u64;
+        for e in &r.outcome.events {
+            match e.ev {
+                Ev::ReaderTreePath => inside += 1,
+                Ev::WriterSetWaiter => break,
+                _ => {}
+            }
+        }
+        js.bump("crowd_runs", 1);
+        js.max("max_readers_inside_one_tree_bin_when_a_writer_arrived", inside);
+        if inside >= 32 {
+            js.bump("crowd_runs_with_32_or_more_readers_inside", 1);
+        }
+    }
     match prop {
         "C01" => out.extend(run_lin(p, r, js)),
         "C03" => {
@@ -669,6 +699,7 @@ pub fn reach_goals(prop: &str, agg: &Agg) -> serde_json::Value {
     let mut goals: Vec<(&str, u64)> = vec![("preemption inside an operation", agg.nontrivial)];
     match prop {
         "C01" | "C05" | "C11" => {
+            goals.push(("crowd runs with 32 or more readers inside one tree bin", ex("crowd_runs_with_32_or_more_readers_inside")));
             goals.push(("resize with a helper joining", ev(Ev::HelperJoined)));
             goals.push(("insert lost the empty-bin CAS", ev(Ev::CasInsertLost)));
             goals.push(("bin head changed while waiting for the lock", ev(Ev::HeadChanged)));
